@@ -91,7 +91,8 @@ theorem stepM_end (s : SysM) (a : Abs) (i : Nat) (hI : InvM s) (hR : RelM s a) :
       · exact hI.distinct.sublist (List.eraseIdx_sublist _ _)
     · exact hRe
 
-theorem stepM_all (s : SysM) (a : Abs) (ev : EvM) (hI : InvM s) (hR : RelM s a) :
+theorem stepM_all (s : SysM) (a : Abs) (ev : EvM) (hI : InvM s) (hR : RelM s a)
+    (hok : ExplicitOk (s.view none) ev.toEv) :
     InvM (s.step ev) ∧ RelM (s.step ev) (a.step ev.toEv) := by
   cases ev with
   | addSeg docs => exact stepM_plain s a (.addSeg docs) rfl hI hR
@@ -99,15 +100,31 @@ theorem stepM_all (s : SysM) (a : Abs) (ev : EvM) (hI : InvM s) (hR : RelM s a) 
   | commit => exact stepM_plain s a .commit rfl hI hR
   | rollback => exact stepM_plain s a .rollback rfl hI hR
   | deleteAll => exact stepM_plain s a .deleteAll rfl hI hR
+  | removeEmpty => exact stepM_plain s a .removeEmpty rfl hI hR
   | startMerge ids => exact stepM_start s a ids hI hR
+  | startMergeExplicit ids => exact stepM_startExplicit s a ids hI hR hok
   | endMerge i => exact stepM_end s a i hI hR
 
-theorem runM_all (evs : List EvM) (s : SysM) (a : Abs) (hI : InvM s) (hR : RelM s a) :
+theorem runM_all (evs : List EvM) (s : SysM) (a : Abs) (hI : InvM s) (hR : RelM s a)
+    (hok : OkTraceM s evs) :
     InvM (s.run evs) ∧ RelM (s.run evs) (a.run (evs.map EvM.toEv)) := by
   induction evs generalizing s a with
   | nil => exact ⟨hI, hR⟩
   | cons ev rest ih =>
-    obtain ⟨h1, h2⟩ := stepM_all s a ev hI hR
-    exact ih (s.step ev) (a.step ev.toEv) h1 h2
+    obtain ⟨h1, h2⟩ := stepM_all s a ev hI hR hok.1
+    exact ih (s.step ev) (a.step ev.toEv) h1 h2 hok.2
+
+def noExplicitM : EvM → Bool
+  | .startMergeExplicit _ => false
+  | _ => true
+
+theorem okTraceM_of_noExplicit (evs : List EvM) (s : SysM) (h : evs.all noExplicitM = true) :
+    OkTraceM s evs := by
+  induction evs generalizing s with
+  | nil => trivial
+  | cons ev rest ih =>
+    simp only [List.all_cons, Bool.and_eq_true] at h
+    refine ⟨?_, ih _ h.2⟩
+    cases ev <;> first | trivial | (simp [noExplicitM] at h)
 
 end TantivyModel.Merge
